@@ -128,6 +128,7 @@ type sched struct {
 	pinned     map[unsafe.Pointer]struct{}
 	objs       map[unsafe.Pointer]*SyncObj
 	inSpinEval bool
+	truncated  bool
 	races      []string
 	raceSet    map[string]bool
 	failure    string
@@ -137,6 +138,9 @@ type sched struct {
 	nmem       int
 	sig        []byte // schedule signature: sequence of running thread ids at decision points
 }
+
+// MaxPoints bounds the decision points recorded per execution.
+const MaxPoints = 20000
 
 // S is the active scheduler; nil means "not exploring" (hooks pass through).
 var s *sched
@@ -156,6 +160,7 @@ type Result struct {
 	SyncOps   int
 	MemOps    int
 	Signature string
+	Truncated bool // more than MaxPoints decision points: the tail ran on default choices only
 }
 
 // Run executes body once under the scheduler, replaying prefix and taking
@@ -182,7 +187,7 @@ func Run(prefix []int, maxSteps int, body func()) Result {
 	}()
 	sc.loop()
 	s = nil
-	return Result{Points: sc.points, Races: sc.races, Failure: sc.failure, Steps: sc.steps, Threads: len(sc.threads), SyncOps: sc.nsync, MemOps: sc.nmem, Signature: string(sc.sig)}
+	return Result{Points: sc.points, Races: sc.races, Failure: sc.failure, Steps: sc.steps, Threads: len(sc.threads), SyncOps: sc.nsync, MemOps: sc.nmem, Signature: string(sc.sig), Truncated: sc.truncated}
 }
 
 type abortExec struct{}
@@ -240,7 +245,12 @@ func (sc *sched) loop() {
 		}
 		choice := 0
 		idx := len(sc.points)
-		if len(en) > 1 {
+		if len(en) > 1 && idx >= MaxPoints {
+			// a runaway execution (tens of thousands of decision points): stop
+			// offering alternatives, run to completion on the default choice
+			sc.truncated = true
+		}
+		if len(en) > 1 && idx < MaxPoints {
 			if idx < len(sc.prefix) {
 				choice = sc.prefix[idx]
 				if choice >= len(en) {
@@ -255,7 +265,9 @@ func (sc *sched) loop() {
 			}
 		}
 		next := sc.threads[en[choice]]
-		sc.sig = append(sc.sig, byte('0'+next.id))
+		if len(sc.sig) < 4*MaxPoints {
+			sc.sig = append(sc.sig, byte('0'+next.id))
+		}
 		sc.cur = next
 		next.blocked = nil
 		sc.steps++
